@@ -206,11 +206,13 @@ func ZZ_C18_Epoch() {
 		s := string(rune('0' + c))
 		vi := vrt.Choose("claimer"+s, nv)
 		ep := E
-		switch vrt.Choose("claimEpoch"+s, 3) {
-		case 1:
-			ep = E - 1
-		case 2:
-			ep = E + 1
+		if c < 2 { // the third claim (thorough tier) is always for the current epoch: keeps the run within the time budget
+			switch vrt.Choose("claimEpoch"+s, 3) {
+			case 1:
+				ep = E - 1
+			case 2:
+				ep = E + 1
+			}
 		}
 		variant := vrt.Choose("variant"+s, 2)
 		orch := sdk.AccAddress(env.staking.Vals[vi].Oper).String()
